@@ -21,8 +21,11 @@ func (self *Compiler) compileBlock(node ast.AnalyzedBlock, pushScope bool) {
 		self.compileStmt(stmt)
 	}
 
+	// Every expression (a block included) leaves exactly one value on the stack: consumers never have to guess.
 	if node.Expression != nil {
 		self.compileExpr(node.Expression)
+	} else {
+		self.insert(newValueInstruction(Opcode_Copy_Push, *value.NewValueNull()), node.Range)
 	}
 }
 
@@ -72,6 +75,8 @@ func (self *Compiler) compileStmt(node ast.AnalyzedStatement) {
 		// If there is a return-expression, insert it
 		if node.ReturnValue != nil {
 			self.compileExpr(node.ReturnValue)
+		} else {
+			self.insert(newValueInstruction(Opcode_Copy_Push, *value.NewValueNull()), node.Span())
 		}
 
 		// Leaving the function also leaves all of its try-blocks.
@@ -99,6 +104,7 @@ func (self *Compiler) compileStmt(node ast.AnalyzedStatement) {
 		defer self.popLoop()
 
 		self.compileBlock(node.Body, true)
+		self.insert(newPrimitiveInstruction(Opcode_Drop), node.Span())
 		self.insert(newOneStringInstruction(Opcode_Jump, head_label), node.Span())
 		self.insert(newOneStringInstruction(Opcode_Label, after_label), node.Span())
 	case ast.WhileStatementKind:
@@ -120,6 +126,7 @@ func (self *Compiler) compileStmt(node ast.AnalyzedStatement) {
 		defer self.popLoop()
 
 		self.compileBlock(node.Body, true)
+		self.insert(newPrimitiveInstruction(Opcode_Drop), node.Range)
 		self.insert(newOneStringInstruction(Opcode_Jump, head_label), node.Range)
 
 		self.insert(newOneStringInstruction(Opcode_Label, after_label), node.Range)
@@ -169,6 +176,7 @@ func (self *Compiler) compileStmt(node ast.AnalyzedStatement) {
 		defer self.popLoop()
 
 		self.compileBlock(node.Body, false)
+		self.insert(newPrimitiveInstruction(Opcode_Drop), node.Range)
 
 		// Update iterator
 		self.insert(newOneStringInstruction(Opcode_Label, update_label), node.Range)
@@ -180,10 +188,8 @@ func (self *Compiler) compileStmt(node ast.AnalyzedStatement) {
 	case ast.ExpressionStatementKind:
 		node := node.(ast.AnalyzedExpressionStatement)
 		self.compileExpr(node.Expression)
-		if node.Expression.Type().Kind() != ast.NullTypeKind {
-			// Drop every value that the expression might generate
-			self.insert(newPrimitiveInstruction(Opcode_Drop), node.Range)
-		}
+		// Drop the value that the expression generates (a `null` for expressions without a result)
+		self.insert(newPrimitiveInstruction(Opcode_Drop), node.Range)
 	default:
 		panic("Unreachable")
 	}
